@@ -37,7 +37,7 @@ def wf(x, np):
     if exact and (up, low, pr) != exp: return 'upper/lower/precision are not max code*2^-n_frac, min code*2^-n_frac, 2^-n_frac: %r' % ((str(up), str(low), str(pr)),)
     return None
 
-OPS = ['ctor', 'ctor_raw', 'ctor_dtype', 'ctor_like', 'ctor_like_scaled', 'best_sizes', 'set', 'call', 'setitem', 'resize', 'like', 'add', 'sub', 'mul', 'const', 'div', 'floordiv', 'mod', 'neg', 'abs', 'lshift', 'rshift', 'invert', 'and', 'getitem', 'sum', 'cumsum', 'dot', 'max', 'transpose', 'equal', 'conj', 'resize_rejected', 'minmax_out']
+OPS = ['ctor', 'ctor_raw', 'ctor_dtype', 'ctor_like', 'ctor_like_scaled', 'best_sizes', 'set', 'call', 'setitem', 'resize', 'like', 'add', 'sub', 'mul', 'const', 'div', 'floordiv', 'mod', 'neg', 'abs', 'lshift', 'rshift', 'invert', 'and', 'getitem', 'sum', 'cumsum', 'dot', 'max', 'transpose', 'equal', 'conj', 'resize_rejected', 'minmax_out', 'np_inplace']
 
 def A_fmt(z): return (bool(z.signed), int(z.n_word), int(z.n_frac))
 def rand_fmt(rng):
@@ -128,6 +128,25 @@ def run_program(rng, res, pid):
                     if np.asarray(x.val).ndim > 0 and not np.iscomplexobj(x.val) and 2 <= x.n_word <= 40:
                         o_ = fx.Fxp(0, not x.signed, max(1, x.n_word - rng.choice([0, 0, 1])), x.n_frac, overflow=rng.choice(OMODES))
                         new = rng.choice([lambda: np.min(x, out=o_), lambda: np.max(x, out=o_), lambda: x.min(out=o_), lambda: x.max(out=o_)])(); nontriv = True
+                elif op == 'np_inplace':
+                    # NumPy functions that write in place (np.put, np.add.at, np.copyto) applied to the object, and writes into the plain array a reading
+                    # returned (x(), get_val(), astype(), np.asarray(x)): the object stays well-formed (integer-valued objects with n_frac = 0 too)
+                    sw = rng.random() < 0.6; nww = rng.choice([4, 8, 12, 16]); lo_, hi_ = S.fmt_bounds(sw, nww); big = rng.choice([hi_ + 1000, 10 ** 6, -(10 ** 6) if sw else 10 ** 7])
+                    w = rng.choice([lambda: fx.Fxp([1, 2, 3], sw, nww, 0), lambda: fx.Fxp([1.0, 2.0, 3.0], sw, nww, 0), lambda: fx.Fxp([1, 2, 3], sw, nww, 2), lambda: fx.Fxp(np.array([1, 2, 3], dtype=np.int64), sw, nww, 0, overflow='wrap')])()
+                    how = rng.choice(['put', 'add_at', 'copyto', 'call', 'get_val', 'astype_int', 'asarray', 'array'])
+                    try:
+                        if how == 'put': np.put(w, [0], big)
+                        elif how == 'add_at': np.add.at(w, [0], big)
+                        elif how == 'copyto': np.copyto(w, [big, big, big])
+                        elif how == 'call': a_ = w(); a_[0] = big
+                        elif how == 'get_val': a_ = w.get_val(); a_[0] = big
+                        elif how == 'astype_int': a_ = w.astype(int); a_[0] = big
+                        elif how == 'asarray': a_ = np.asarray(w); a_[0] = big
+                        else: a_ = np.array(w, copy=False); a_[0] = big
+                    except Exception: pass
+                    nontriv = True; why = wf(w, np)
+                    if why:
+                        res.fail({'program': pid, 'log': log, 'object': -1, 'fmt': A_fmt(w), 'how': how}, 'C02: after %s (an in-place NumPy function on the object, or a write into the array a reading returned) an object is not well-formed' % how, got=why); return
                 elif op == 'resize_rejected':
                     # a resize that is rejected (dtype= together with another size parameter) leaves the object as it was
                     before = (A_fmt(x), lib.codes_of(x) if not np.iscomplexobj(x.val) else None, x.dtype)
